@@ -481,6 +481,44 @@ def rule_number_text(chk, fb):
         chk.ob(re_, "%s" % d, not casts, where=fb.loc(d) if not casts else "%s:%s" % (b["file"], casts[0]["ln"]), detail="float-to-int casts on the number-to-text path: %d%s" % (len(casts), " (whole numbers beyond the integer range saturate)" if casts else ""))
 
 
+def rule_number_exact(chk, fb, rid="C01.e.exact"):
+    """The text of a number is the shortest text that parses back to the same f64 (Rust's `{}` for f64).  Anything put
+    between the stored value and that placeholder - a rounding helper, a precision, a cast - makes two numbers share a
+    text, and the text is what is written to the file and exported."""
+    import hirq
+
+    r = chk.rule(
+        rid,
+        "number text is exact: in the Display impl of the raw cell value the Numeric payload goes to a plain `{}` placeholder as it is - no crate function, no cast and no precision/width between the stored f64 and the formatter",
+        floor=1,
+    )
+    d = "<%s as std::fmt::Display>::fmt" % RAW
+    h = fb.hir.get(d)
+    if not h:
+        chk.ob(r, "anchor", False, detail="Display impl of the raw cell value not found")
+        return
+    chk.touch(d)
+    n = 0
+    for x in hirq.walk(h["body"]):
+        if x.get("k") != "match":
+            continue
+        for arm in x["arms"]:
+            pat = arm["pat"]
+            while pat.get("k") == "ref":
+                pat = pat["sub"]
+            if not (pat.get("k") == "ts" and pat.get("def", "").endswith("::Numeric")):
+                continue
+            body = arm["body"]
+            crate_calls = sorted({c for c in hirq.called_defs(body) if c in fb.mir or c in fb.hir})
+            casts = [y.get("ln") for y in hirq.walk(body) if y.get("k") == "cast"]
+            specs = hirq.format_specs(body)
+            fancy = [ln for o, ln in specs if o is None or o != 0]
+            ok = not crate_calls and not casts and not fancy
+            chk.ob(r, "Numeric#%d" % n, ok, where="%s:%s" % (h["file"], arm.get("ln", "")),
+                   detail="placeholders: %d (with width/precision/flags: %d); crate functions applied to the value: %s; casts: %d" % (len(specs), len(fancy), [c.split("::")[-1] for c in crate_calls] or "none", len(casts)))
+            n += 1
+
+
 FILTERS = ("filter", "filter_map", "skip", "take", "skip_while", "take_while", "step_by", "nth", "find", "last", "next")
 
 
@@ -540,6 +578,7 @@ def rule_rich_text_value(chk, fb):
 
 def run(chk, fb, tier):
     rule_number_text(chk, fb)
+    rule_number_exact(chk, fb)
     rule_kind_table(chk, fb)
     rule_escape(chk, fb)
     rule_key(chk, fb)
